@@ -782,6 +782,10 @@ static void emitFunction(Function &F, raw_ostream &O) {
                     unsigned w = I.getType()->getIntegerBitWidth();
                     std::string a = val(X, CB->getArgOperand(0)), b = val(X, CB->getArgOperand(1));
                     O << "    " << r << " = " << sext(a, w) << (nm.rfind("llvm.smax", 0) == 0 ? " > " : " < ") << sext(b, w) << " ? " << a << " : " << b << ";\n";
+                } else if (nm.rfind("llvm.fmuladd", 0) == 0) {
+                    O << "    " << r << " = " << val(X, CB->getArgOperand(0)) << " * " << val(X, CB->getArgOperand(1)) << " + " << val(X, CB->getArgOperand(2)) << ";\n";
+                } else if (nm.rfind("llvm.fabs", 0) == 0) {
+                    std::string a = val(X, CB->getArgOperand(0)); O << "    " << r << " = " << a << " < 0 ? -" << a << " : " << a << ";\n";
                 } else if (nm == "llvm.eh.typeid.for") {
                     int id = tiId(CB->getArgOperand(0));
                     O << "    " << r << " = " << (id == 0 ? 1 : id) << ";\n";
